@@ -17,6 +17,7 @@ CD == {"custom", "default"}
 ALLK == {"custom", "default", "free", "customnq"}
 Lens_2x2   == <<1..2, 0..2>>
 Lens_2x3   == <<1..3, 0..3>>
+Lens_t23   == <<{3}, 0..3>>
 Lens_3x2   == <<1..2, 1..2, 0..2>>
 Lens_3x3   == <<1..3, 1..3, 0..3>>
 Lens_q     == <<{2}, {0, 1, 2}>>
